@@ -295,6 +295,32 @@ fn main() {
                     Err(_) => out.push_str(&format!("{i} TP err\n")),
                 }
             }
+        } else if let Some(ops) = line.strip_prefix("OPS ") {
+            // a call history on toml::Table: `i<hexkey>` insert, `r<hexkey>` remove, `e<hexkey>` remove through the entry API
+            #[cfg(feature = "t")]
+            {
+                let mut tb = toml::Table::new();
+                let mut n = 0i64;
+                for op in ops.split(';').filter(|o| !o.is_empty()) {
+                    let k = unhex(&op[1..]);
+                    n += 1;
+                    match &op[..1] {
+                        "i" => {
+                            tb.insert(k, toml::Value::Integer(n));
+                        }
+                        "r" => {
+                            tb.remove(&k);
+                        }
+                        _ => {
+                            if let toml::map::Entry::Occupied(e) = tb.entry(k) {
+                                e.remove();
+                            }
+                        }
+                    }
+                }
+                let keys: Vec<String> = tb.iter().map(|(k, v)| format!("{k:?}={}", v.as_integer().unwrap_or(-1))).collect();
+                out.push_str(&format!("{i} TM {}\n", hex(&keys.join(","))));
+            }
         } else if let Some(spec) = line.strip_prefix("TREE ") {
             let mut p = P { s: spec.as_bytes(), i: 0 };
             let Spec::Table(root) = p.node() else { panic!("root spec") };
